@@ -43,9 +43,13 @@ pub(crate) fn mk_table(
 }
 
 pub(crate) fn any_key2() -> ([u8; 2], usize) {
-	let b: [u8; 2] = kani::any();
+	any_keyn::<2>()
+}
+
+pub(crate) fn any_keyn<const N: usize>() -> ([u8; N], usize) {
+	let b: [u8; N] = kani::any();
 	let l: usize = kani::any();
-	kani::assume(l <= 2);
+	kani::assume(l <= N);
 	(b, l)
 }
 
@@ -79,11 +83,22 @@ pub(crate) fn in_user_range(x: &[u8], lk: u8, lo: &[u8], uk: u8, hi: &[u8]) -> b
 #[kani::proof]
 #[kani::unwind(4)]
 fn c06_table_range_predicates_never_hide_a_key() {
-	let (s, sl) = any_key2();
-	let (l, ll) = any_key2();
-	let (x, xl) = any_key2();
-	let (lo, lol) = any_key2();
-	let (hi, hil) = any_key2();
+	table_range_predicates_never_hide_a_key::<2>();
+}
+
+/// the same for keys up to 4 bytes (thorough)
+#[kani::proof]
+#[kani::unwind(6)]
+fn c06_table_range_predicates_never_hide_a_key_4() {
+	table_range_predicates_never_hide_a_key::<4>();
+}
+
+fn table_range_predicates_never_hide_a_key<const N: usize>() {
+	let (s, sl) = any_keyn::<N>();
+	let (l, ll) = any_keyn::<N>();
+	let (x, xl) = any_keyn::<N>();
+	let (lo, lol) = any_keyn::<N>();
+	let (hi, hil) = any_keyn::<N>();
 	let (s, l, x, lo, hi) = (&s[..sl], &l[..ll], &x[..xl], &lo[..lol], &hi[..hil]);
 	let lk: u8 = kani::any();
 	let uk: u8 = kani::any();
